@@ -307,6 +307,8 @@ func init() {
 			{Name: "large", QShards: 2, TShards: 8, Run: func(c *Ctx) { alignLarge(c, alignOpts{validity: true}, c08Gen) }},
 			{Name: "parallel", Race: true, Run: alignParallel},
 			firstCallUnit(firstAlign("C08")),
+			firstParallelUnit(parAlign),
+			reuseUnit(reuseAlign),
 			{Name: "largecalls", QShards: 2, TShards: 4, Run: func(c *Ctx) { alignLargeCalls(c, alignOpts{validity: true, local: true}, c08Gen) }},
 			{Name: "manycalls", QShards: 4, TShards: 6, Run: func(c *Ctx) { alignManyCalls(c, alignOpts{validity: true, local: true}, c08Gen) }},
 		},
@@ -331,6 +333,8 @@ func init() {
 			{Name: "largecalls", QShards: 2, TShards: 4, Run: func(c *Ctx) { alignLargeCalls(c, alignOpts{validity: true, optimal: true, local: true}, c09Gen) }},
 			{Name: "manycalls", QShards: 4, TShards: 6, Run: func(c *Ctx) { alignManyCalls(c, alignOpts{validity: true, optimal: true, local: true}, c09Gen) }},
 			firstCallUnit(firstAlign("C09")),
+			firstParallelUnit(parAlign),
+			reuseUnit(reuseAlign),
 		},
 	})
 	register(&Property{
@@ -920,6 +924,8 @@ func alignLargeCalls(c *Ctx, o alignOpts, gen func(r *rand.Rand, mi int, alpha [
 		{{1100, 1000}, {1010, 1040}, {2000, 600}, {600, 2000}, {1024, 1024}, {1023, 1025}, {300, 300}, {1100, 1000}},
 		{{1500, 1500}, {1200, 1100}, {1100, 1200}, {3000, 400}, {1050, 1050}, {40, 30000}, {1049, 1051}},
 	}
+	// rows of 2^k cells (len(b) = 2^k - 1) and of 2^k + 1, tables of just 2^18 and 2^20 cells
+	histories = append(histories, [][2]int{{300, 1023}, {1100, 1023}, {1023, 255}, {4200, 255}, {513, 511}, {600, 2047}, {2047, 511}, {1024, 1024}, {1025, 1023}})
 	if c.Thorough {
 		histories = append(histories, [][2]int{{4200, 4100}, {4100, 4100}, {4099, 4101}, {2100, 2100}, {8000, 2100}, {2048, 2048}, {2047, 2049}},
 			[][2]int{{1 << 20, 3}, {3, 1 << 20}, {1500, 700}, {700, 1500}, {1024, 1023}, {1023, 1024}})
@@ -932,11 +938,45 @@ func alignLargeCalls(c *Ctx, o alignOpts, gen func(r *rand.Rand, mi int, alpha [
 				k.Input("table_shapes", fmt.Sprint(hist))
 				for t, sh := range hist {
 					m, local := gen(r, 0, alpha)
+					if (t+variant)%3 == 2 {
+						// the scoring people use for DNA: match 5, mismatch -4, gap extension -1 or -0.5 — and, where the
+						// property allows a gap-open cost (the generated matrix has one), -10 or -20
+						open := 0.0
+						if mget(m, gapB, gapB) != 0 {
+							open = pick(r, []float64{-10, -20})
+						}
+						m = dnaMatrix(alpha, 5, -4, pick(r, []float64{-1, -0.5}), open)
+						local = true
+					}
 					a := randSeq(r, alpha, sh[0])
 					b := make([]byte, sh[1])
+					switch rel := (t + hi) % 4; rel {
+					case 0, 1: // b follows a, stretched or squeezed to its own length, with substitutions
+						for j := range b {
+							b[j] = a[j*len(a)/len(b)]
+						}
+					case 2: // b is a window of a (a overhangs on both sides), or a a window of b
+						if len(a) >= len(b) {
+							copy(b, a[r.IntN(len(a)-len(b)+1):])
+						} else {
+							copy(b, randSeq(r, alpha, len(b)))
+							copy(b[r.IntN(len(b)-len(a)+1):], a)
+						}
+					default: // a = P X Q, b = P Q Y: a segment moved, the rest identical along the main diagonal
+						n := min(len(a), len(b))
+						x := 20 + r.IntN(60)
+						q := min(30+r.IntN(40), n/4)
+						if n > 2*(x+q) {
+							p := n - x - q
+							copy(b, a[:p])
+							copy(b[p:], a[p+x:p+x+q])
+							copy(b[p+q:], randSeq(r, alpha, len(b)-p-q))
+						} else {
+							copy(b, a)
+						}
+					}
 					for j := range b {
-						b[j] = a[j*len(a)/len(b)]
-						if r.IntN(6) == 0 {
+						if r.IntN(12) == 0 {
 							b[j] = alpha[r.IntN(len(alpha))]
 						}
 					}
@@ -958,6 +998,23 @@ func alignLargeCalls(c *Ctx, o alignOpts, gen func(r *rand.Rand, mi int, alpha [
 			})
 		}
 	}
+}
+
+// dnaMatrix: match / mismatch / per-character gap / gap-open over the alphabet.
+func dnaMatrix(alpha []byte, match, mismatch, gap, open float64) align.SubstitutionMatrix {
+	m := align.SubstitutionMatrix{}
+	for _, x := range alpha {
+		for _, y := range alpha {
+			if x == y {
+				m[[2]byte{x, y}] = match
+			} else {
+				m[[2]byte{x, y}] = mismatch
+			}
+		}
+		m[[2]byte{x, align.Gap}], m[[2]byte{align.Gap, x}] = gap, gap
+	}
+	m[[2]byte{align.Gap, align.Gap}] = open
+	return m
 }
 
 // alignAlphabet: the usual letters, the extreme byte values (0 first, so that
